@@ -580,6 +580,58 @@ def kernel_snippet(shape, outer_opt, elem_opt, table, cuts, use_dict):
                tuple(table), tuple(cuts), use_dict))
 
 
+# ------------------------------------------------------------------------------------------------
+# two nested columns whose leaves share the name `element` (every 3-level LIST has one) but differ in type
+# ------------------------------------------------------------------------------------------------
+G_TWO = "c15.two_lists"
+TWO_ROWS = {"names": [["ann", "bob"], None, [], ["cy"], ["dee", "ann", "eve"]], "nums": [[1, 2], [3], None, [], [4, 5, 6]]}
+
+
+def two_lists_cases():
+    for order in (("names", "nums"), ("nums", "names")):
+        for version in (1, 2):
+            for use_dict in (False, True):
+                if version == 2 and not use_dict:
+                    continue        # nested PLAIN v2 pages: outside the layouts today's reader accepts (known C15 finding, group c15.files)
+                yield order, version, use_dict
+
+
+def build_two_lists(order, version, use_dict):
+    from spec import pqwrite as W
+    spec = {"names": W.ListSpec("names", W.ColumnSpec("element", "BYTE_ARRAY", converted="UTF8"), optional=True),
+            "nums": W.ListSpec("nums", W.ColumnSpec("element", "INT64"), optional=True)}
+    enc = ("RLE_DICTIONARY" if version == 2 else "PLAIN_DICTIONARY") if use_dict else "PLAIN"
+    lay = {"*": W.ChunkLayout(pages=[W.PageLayout(version=version, encoding=enc)], dictionary="auto" if use_dict else None)}
+    return W.encode_file([spec[c] for c in order], [{c: TWO_ROWS[c] for c in order}], lay)
+
+
+def two_lists_case(repo, order, version, use_dict):
+    import io
+    if repo not in sys.path:
+        sys.path.insert(0, repo)
+    import fastparquet
+    data = build_two_lists(order, version, use_dict)
+    try:
+        df = fastparquet.ParquetFile(io.BytesIO(data)).to_pandas()
+        got = {c: [None if r is None else [x.item() if hasattr(x, "item") else x for x in r] for r in df[c]] for c in order}
+    except Exception as e:
+        return False, "read raised %s: %s" % (type(e).__name__, str(e)[:150])
+    want = {c: TWO_ROWS[c] for c in order}
+    if got != want:
+        return False, "got %r, expected %r" % (got, want)
+    return True, ""
+
+
+def two_lists_snippet(order, version, use_dict):
+    data = build_two_lists(order, version, use_dict)
+    return ("import base64, io\nimport fastparquet\ndata = base64.b64decode(%r)\nexpected = %r\n" % (
+        base64.b64encode(data).decode(), {c: TWO_ROWS[c] for c in order}) +
+        "try:\n    df = fastparquet.ParquetFile(io.BytesIO(data)).to_pandas()\n"
+        "    got = {c: [None if r is None else [x.item() if hasattr(x, 'item') else x for x in r] for r in df[c]] for c in expected}\n"
+        "except Exception as e:\n    got = 'raised %s: %s' % (type(e).__name__, e)\n"
+        "print('got     ', got)\nprint('expected', expected)\nVIOLATED = got != expected\n")
+
+
 def run_bounded(ctx):
     from spec import pqwrite, assembly
     t0 = time.time()
@@ -637,5 +689,17 @@ def run_bounded(ctx):
         with Case(ctx, G_FILES, file_features(case), contract=CONTRACT) as c:
             if not ok:
                 c.snippet = file_snippet(case)
+                c.fail(what)
+    # ---- two LIST columns with equally named leaves -------------------------------------------------
+    ctx.bounded_group(G_TWO, rule=(
+        "one file with TWO 3-level LIST columns whose leaves are both called `element` but differ in type (LIST<utf8> and LIST<int64>), in "
+        "both column orders x (v1 PLAIN, v1 dictionary, v2 dictionary); rows: lists, null row, empty list: each column must come back with "
+        "ITS OWN element type (a schema lookup keyed by the leaf name alone decodes one column with the other's converted type)"))
+    for order, version, use_dict in two_lists_cases():
+        ok, what = _in_fork(two_lists_case, REPO, order, version, use_dict)
+        feats = {"order": "+".join(order), "page_version": version, "values": "dict" if use_dict else "plain"}
+        with Case(ctx, G_TWO, feats, contract=CONTRACT) as c:
+            if not ok:
+                c.snippet = two_lists_snippet(order, version, use_dict)
                 c.fail(what)
     ctx.note("c15: kernel %.1f s, %d files %.1f s" % (t1 - t0, len(cases), time.time() - t1))
